@@ -262,6 +262,13 @@ def count_errors(y: np.ndarray, home_streak_min: int,
                         is_in_home_streak = False
                         home_streak_len = 0
 
+            # A team cannot play against itself. This inconsistency has
+            # already been counted above and there is no pairing of a team
+            # with itself in temp_1 (the index below would belong to another
+            # pairing or, for the last team, lie outside of temp_1).
+            if team_1 == team_2:
+                continue
+
             # now we need to check for the game separation difference
             idx: int = ((team_1 * (team_1 - 1) // 2) + team_2) \
                 if team_1 > team_2 \
